@@ -273,17 +273,27 @@ func CountEvents(fn *ssa.Function, event func(ssa.Instruction) CountSet) []PathE
 				}
 				continue
 			case *ssa.Return:
+				// (an event may be attributed to the exit itself: the first instruction of a select arm)
+				if c := event(i); c != 0 && c != C0 {
+					st = addCounts(st, c)
+				}
 				if exits != nil {
 					*exits = append(*exits, PathExit{x, ExitReturn, st})
 				}
 				return 0
 			case *ssa.Panic:
+				if c := event(i); c != 0 && c != C0 {
+					st = addCounts(st, c)
+				}
 				if exits != nil && !isSelectFallthroughPanic(x) {
 					*exits = append(*exits, PathExit{x, ExitPanic, st})
 				}
 				return 0
 			}
 			if noReturnCall(i) {
+				if c := event(i); c != 0 && c != C0 {
+					st = addCounts(st, c)
+				}
 				if exits != nil {
 					*exits = append(*exits, PathExit{i, ExitFatal, st})
 				}
